@@ -46,10 +46,43 @@ def vector(draw, domain, n, mag=MAG):
 
 
 @st.composite
-def vector_pair(draw, domain, nmax=64, mag=MAG, nmin=1):
+def vector_pair(draw, domain, nmax=64, mag=MAG, nmin=1, allow_huge=True):
     """(x, y, kind) with the relationship classes the quantifiers ask for"""
     n = draw(st.one_of(st.integers(nmin, min(8, nmax)), st.integers(nmin, nmax)))
-    kind = draw(st.sampled_from(["indep", "indep", "indep", "onecoord", "proportional", "identical", "near", "long_large", "sparse"]))
+    kind = draw(st.sampled_from(["indep", "indep", "indep", "onecoord", "proportional", "identical", "near", "long_large", "sparse", "very_long", "huge"]))
+    if kind == "very_long" and nmax >= 56:
+        # lengths far beyond anything a unit test uses (block-wise / chunked code paths)
+        n = draw(st.sampled_from([65, 100, 128, 255, 256, 257, 511, 512, 513, 600, 1000, 1025]))
+        small = st.one_of(st.floats(0.5, 4.0, allow_nan=False), st.integers(1, 8).map(float))
+        x = draw(st.lists(small, min_size=n, max_size=n))
+        how = draw(st.sampled_from(["indep", "near_offset", "tail"]))
+        if how == "indep":
+            y = draw(st.lists(small, min_size=n, max_size=n))
+        elif how == "near_offset":
+            # a large common offset with a small separation (cancellation-prone for expanded formulas)
+            off = draw(st.sampled_from([1000.0, 100000.0]))
+            x = [v + off for v in x]
+            y = [v + draw(st.sampled_from([0.0078125, 0.015625, 0.5])) for v in x]
+        else:
+            # equal except in the first few coordinates: whatever is summed last must not be all that counts
+            y = list(x)
+            for i_ in range(draw(st.integers(1, 5))):
+                y[i_] = x[i_] + draw(st.sampled_from([1.0, 2.5, 7.0]))
+        if domain in ("R", "RNZ") and draw(st.booleans()):
+            x, y = [-v for v in x], [-v for v in y]
+        return _fix_domain(domain, x, 1.0), _fix_domain(domain, y, 1.0), kind
+    if kind == "huge" and nmax >= 56 and allow_huge:
+        # very large magnitudes (1e90..1e100): every closed form is still far from overflow, careless products are not
+        n = draw(st.integers(nmin, 8))
+        hm = st.floats(1e90, 1e100, allow_nan=False)
+        x = draw(st.lists(hm, min_size=n, max_size=n))
+        y = draw(st.lists(hm, min_size=n, max_size=n))
+        if domain in ("R", "RNZ"):
+            sg = draw(st.lists(st.sampled_from([1.0, 1.0, -1.0]), min_size=n, max_size=n))
+            y = [v * s_ for v, s_ in zip(y, sg)]
+        return _fix_domain(domain, x, 1e95), _fix_domain(domain, y, 1e95), kind
+    if kind in ("very_long", "huge"):
+        kind = "indep"
     if kind == "sparse" and domain in ("R", "NN", "NN0"):
         # sparse / count data: most coordinates exactly zero, shared zero coordinates between the vectors
         n = draw(st.integers(max(nmin, 2), min(nmax, 12)))
